@@ -1,6 +1,6 @@
 SPECIFICATION Spec
 CONSTANTS
-  MinBodies = 2
+  MinBodies = 3
   MaxBodies = 4
   JTypes <- AllJ
   Axes <- Ax6
@@ -28,6 +28,7 @@ CONSTANTS
   TenDamps <- One0
   TenArms <- One0
   Level = 2
+  Rand = TRUE
 INVARIANT TypeOK
 INVARIANT FramesProper
 INVARIANT JacIsDerivative
